@@ -121,6 +121,20 @@ var menu = []opDef{
 		}
 		return dump(got)
 	}, func(m map[string]int, _ int, res any) (bool, map[string]int) { return res == dump(m), m }},
+	{"Range(stop after 1)", func(s *kv, _ int) any {
+		got := map[string]int{}
+		s.Range(func(k string, v int) bool { got[k] = v; core.Pause(); return false })
+		return dump(got)
+	}, firstOnly},
+	{"All(break after 1)", func(s *kv, _ int) any {
+		got := map[string]int{}
+		for k, v := range s.All() {
+			got[k] = v
+			core.Pause()
+			break
+		}
+		return dump(got)
+	}, firstOnly},
 	{"GetWithMap(a,b)", func(s *kv, _ int) any {
 		q := map[string]int{"a": -1, "b": -1}
 		s.GetWithMap(q)
@@ -160,6 +174,24 @@ var menu = []opDef{
 		m["b"] = val
 		return ok, m
 	}},
+}
+
+// firstOnly: an enumeration stopped by the callback after one binding saw exactly one binding of
+// the map as it was at one instant (none iff the map was empty) — and gave the lock back.
+func firstOnly(m map[string]int, _ int, res any) (bool, map[string]int) {
+	got := parse(res.(string))
+	if len(m) == 0 {
+		return len(got) == 0, m
+	}
+	if len(got) != 1 {
+		return false, m
+	}
+	for k, v := range got {
+		if mv, ok := m[k]; !ok || mv != v {
+			return false, m
+		}
+	}
+	return true, m
 }
 
 var byName = map[string]*opDef{}
@@ -279,7 +311,7 @@ func main() {
 		byName[menu[i].name] = &menu[i]
 	}
 	var specs []sched.Spec
-	inits := []map[string]int{{}, {"a": 1}}
+	inits := []map[string]int{{}, {"a": 1}, {"a": 1, "b": 2}}
 	for ii, init := range inits {
 		for i := range menu {
 			for j := i; j < len(menu); j++ {
